@@ -17,11 +17,12 @@ of coefficient `t` of the limb column `c` at radix `2^b` (last limb weight 1), s
    (2) public-key encryption: proved for a public key with the ciphertext's number of limbs
        (`glwe_encrypt_pk_phase`, `glwe_encrypt_pk_error`); for `size_pk ≠ size` the columns are only within
        one unit (tied and oracle-checked, not proved).
-   (3) decryption into a plaintext of a different radix: `glwe_decrypt_value_modulo_norm` assumes the
-       value property `NormSpec` of the cross-radix `vec_znx_big_normalize` (C08 states it as
-       `normalize_cross_value`, not proved there either; the executable model is fully tied). -/
+   (3) decryption into a plaintext of a different radix: now unconditional, `glwe_decrypt_value_any_radix`
+       (C08's cross-radix value theorem discharges `NormSpec`: `normSpec_of_headroom`); the older
+       conditional form `glwe_decrypt_value_modulo_norm` is kept. -/
 -/
 import Poulpy.Lemmas.CoreEncLwe
+import Poulpy.Lemmas.NormDispatch
 import Poulpy.Lemmas.CoreEncHead
 import Poulpy.Lemmas.CoreEncPk4
 
@@ -202,6 +203,105 @@ example : Core.glweDecrypt 64 { base2k := 3, k := 6, n := 1, cols := [[[1], [3]]
   rw [this] at hout
   cases hout
   exact ⟨rfl, 0, 0, by decide, by decide⟩
+
+/-- **`NormSpec` is a theorem within head-room** (C08 `normalize_value` / `big_normalize128_value`, i.e. the
+cross-radix value theorem at offset 0 together with the same-radix one): radices `1..62`, limbs of the phase
+bounded by `H` with `H + 8 ≤ 2^(bits-2)`. -/
+theorem normSpec_of_headroom {bits rb rs ab : Nat} {H : Int} {l : List Int} (c : CrossCtx bits ab rb rs 0 H l) :
+    NormSpec bits rb rs ab l := by
+  intro out hout
+  unfold bigNormCoef at hout
+  have key : out.length = rs ∧ (∀ d ∈ out, |d| ≤ 2 ^ rb - 1) ∧
+      TorusNear (valI rb out) (rb * rs) (valI ab l * 2 ^ (0 : Int).toNat) (ab * l.length + (-(0 : Int)).toNat) := by
+    rcases c.hbits with rfl | rfl
+    · rw [if_pos rfl] at hout
+      obtain ⟨a1, a2, a3, _⟩ := normalizeCoef_value c 0 hout
+      exact ⟨a1, a2, a3⟩
+    · rw [if_neg (by decide)] at hout
+      obtain ⟨a1, a2, a3, _⟩ := bigNormalizeCoef128_value c 0 hout
+      exact ⟨a1, a2, a3⟩
+  obtain ⟨h1, _, h3⟩ := key
+  simp only [Int.toNat_zero, pow_zero, mul_one, neg_zero, Nat.add_zero] at h3
+  exact ⟨h1, h3⟩
+
+/-- **`glwe_decrypt`, any plaintext radix (equal to the ciphertext's or not), unconditional**: for radices
+`1..62` and an exact phase within head-room (`|limb| ≤ H`, `H + 8 ≤ 2^(bits-2)`; `bits = 64` FFT64/VecZnx,
+`bits = 128` NTT120), whenever the decryption returns a plaintext it has `ps` limbs with `|d| ≤ 2^pb − 1`
+and represents the exact phase within one unit of its last limb — exactly when the plaintext has at least
+as many bits as the ciphertext (`ct.base2k·size ≤ pb·ps`). -/
+theorem glwe_decrypt_value_any_radix {bits : Nat} {H : Int} (hbits : bits = 64 ∨ bits = 128)
+    (ct : Core.GLWE) (sk : List Poly) (pb ps : Nat) (pt : Col)
+    (hdec : Core.glweDecrypt bits ct sk pb ps = some pt)
+    (hpb1 : 1 ≤ pb) (hpb : pb ≤ 62) (hb1 : 1 ≤ ct.base2k) (hb : ct.base2k ≤ 62)
+    (hH0 : 0 ≤ H) (hH : H + 8 ≤ 2 ^ (bits - 2)) (hB : Bounded H (Core.phaseBig sk ct)) :
+    pt.length = ps ∧ ∀ t, t < ct.n →
+      (∀ d ∈ coefAt pt t, |d| ≤ 2 ^ pb - 1) ∧
+      TorusNear (Core.valCoeff pb pt t) (pb * ps) (Core.valCoeff ct.base2k (Core.phaseBig sk ct) t)
+        (ct.base2k * (Core.phaseBig sk ct).length) ∧
+      (ct.base2k * (Core.phaseBig sk ct).length ≤ pb * ps →
+        TorusEq (Core.valCoeff pb pt t) (pb * ps) (Core.valCoeff ct.base2k (Core.phaseBig sk ct) t)
+          (ct.base2k * (Core.phaseBig sk ct).length)) := by
+  unfold Core.glweDecrypt at hdec
+  split at hdec
+  · simp at hdec
+  · have hinv : mapCoefs? ct.n ps (fun i => bigNormCoef bits pb ps ct.base2k (coefAt (Core.phaseBig sk ct) i)) = some pt := by
+      unfold Core.bigNormalize at hdec
+      rcases hbits with rfl | rfl
+      · simpa [bigNormalizeCol64?, normalizeCol?, bigNormCoef] using hdec
+      · simpa [bigNormalizeCol128?, bigNormCoef] using hdec
+    obtain ⟨i1, _, i3⟩ := mapCoefs?_inv ct.n ps _ pt hinv
+    refine ⟨i1, ?_⟩
+    intro t ht
+    obtain ⟨o, ho, hco⟩ := i3 t ht
+    have c : CrossCtx bits ct.base2k pb ps 0 H (coefAt (Core.phaseBig sk ct) t) :=
+      ⟨hbits, hpb1, hpb, hb1, hb, hH0, hH, coefAt_bounded hH0 hB t⟩
+    have key : o.length = ps ∧ (∀ d ∈ o, |d| ≤ 2 ^ pb - 1) ∧
+        TorusNear (valI pb o) (pb * ps) (valI ct.base2k (coefAt (Core.phaseBig sk ct) t) * 2 ^ (0 : Int).toNat)
+          (ct.base2k * (coefAt (Core.phaseBig sk ct) t).length + (-(0 : Int)).toNat) ∧
+        (((ct.base2k * (coefAt (Core.phaseBig sk ct) t).length : Nat) : Int) - 0 ≤ ((pb * ps : Nat) : Int) →
+          TorusEq (valI pb o) (pb * ps) (valI ct.base2k (coefAt (Core.phaseBig sk ct) t) * 2 ^ (0 : Int).toNat)
+            (ct.base2k * (coefAt (Core.phaseBig sk ct) t).length + (-(0 : Int)).toNat)) := by
+      unfold bigNormCoef at ho
+      rcases hbits with rfl | rfl
+      · rw [if_pos rfl] at ho
+        exact normalizeCoef_value c 0 ho
+      · rw [if_neg (by decide)] at ho
+        exact bigNormalizeCoef128_value c 0 ho
+    obtain ⟨k1, k2, k3, k4⟩ := key
+    simp only [Int.toNat_zero, pow_zero, mul_one, neg_zero, Nat.add_zero, coefAt_length, sub_zero] at k3 k4
+    rw [valCoeff_eq, valCoeff_eq, hco k1]
+    exact ⟨k2, k3, fun hle => k4 (by exact_mod_cast hle)⟩
+
+/-- **`glwe_decrypt` into any plaintext radix always returns** (matching rank, radices ≥ 1): C08's termination
+theorem of the cross-radix loop.  Together with `glwe_decrypt_value_any_radix` this is total correctness. -/
+theorem glwe_decrypt_any_radix_returns {bits : Nat} (hbits : bits = 64 ∨ bits = 128)
+    (ct : Core.GLWE) (sk : List Poly) (pb ps : Nat) (hrank : ct.rank = sk.length) (hpb1 : 1 ≤ pb) (hb1 : 1 ≤ ct.base2k) :
+    ∃ pt, Core.glweDecrypt bits ct sk pb ps = some pt := by
+  unfold Core.glweDecrypt Core.bigNormalize
+  rw [if_neg (by simp [hrank])]
+  rcases hbits with rfl | rfl
+  · rw [if_pos rfl]
+    exact normalizeCol?_exists pb ps 0 _ ct.base2k ct.n hb1 hpb1
+  · rw [if_neg (by decide)]
+    exact bigNormalizeCol128?_exists pb ps 0 _ ct.base2k ct.n hb1 hpb1
+
+example : ∃ pt, Core.glweDecrypt 128 { base2k := 3, k := 6, n := 1, cols := [[[1], [3]]] } [] 2 3 = some pt :=
+  glwe_decrypt_any_radix_returns (Or.inr rfl) _ [] 2 3 rfl (by norm_num) (by norm_num)
+
+/-- non-vacuity: the cross-radix decryption of the example above (radix 2^3 → 2^2), now through the theorem -/
+example : TorusNear (Core.valCoeff 2 [[1], [-1], [-1]] 0) (2 * 3)
+    (Core.valCoeff 3 (Core.phaseBig [] { base2k := 3, k := 6, n := 1, cols := [[[1], [3]]] }) 0)
+    (3 * (Core.phaseBig [] { base2k := 3, k := 6, n := 1, cols := [[[1], [3]]] }).length) := by
+  have hd : Core.glweDecrypt 64 { base2k := 3, k := 6, n := 1, cols := [[[1], [3]]] } [] 2 3 = some [[1], [-1], [-1]] := by
+    decide
+  have hB : Bounded (2 ^ 61) (Core.phaseBig [] { base2k := 3, k := 6, n := 1, cols := [[[1], [3]]] }) := by
+    have : Core.phaseBig [] { base2k := 3, k := 6, n := 1, cols := [[[1], [3]]] } = [[1], [3]] := by decide
+    rw [this]
+    intro l hl x hx
+    simp at hl
+    rcases hl with rfl | rfl <;> simp at hx <;> subst hx <;> norm_num
+  exact ((glwe_decrypt_value_any_radix (bits := 64) (H := 2 ^ 61) (Or.inl rfl) _ [] 2 3 _ hd
+    (by norm_num) (by norm_num) (by norm_num) (by norm_num) (by norm_num) (by norm_num) hB).2 0 (by decide)).2.1
 
 /-! ### encrypt, then decrypt -/
 
